@@ -68,6 +68,19 @@ claim('C09',
       'explicit-state exploration of input/time histories of the real component classes against reference semantics',
       'DESIGN.md#c09')
 
+claim('C10',
+      'A 19-device dynamic system is assembled through System.add in every order of a bounded family (base, reversed, '
+      'round-robin, dynamic-first, every within-model permutation; pairs of deviations in thorough) x index types '
+      '{int, str, mixed, auto} x collated storage on one model at a time; after set-up and again after dynamic '
+      'initialisation the address map is checked to be a bijection onto the state/algebraic vectors, slot names are '
+      'checked, and a sentinel vector is read back through every internal variable, every external variable '
+      '(resolved by the harness from the device specification), Model.get, Group.get, external parameters and Output '
+      'selection.',
+      'One reference device set (the addressing code is model-independent); Bus itself is never collated (the network '
+      'code documents contiguous bus addresses).',
+      'bounded exhaustive enumeration of add orders / index types with a sentinel read-back oracle',
+      'DESIGN.md#c10')
+
 _PENDING = 'check not built yet in this round; planned per DESIGN.md (bounded exhaustive exploration applies)'
 for _p in ALL:
     if _p not in CLAIMED:
